@@ -2888,7 +2888,7 @@ _old_units_for = units_for
 
 def units_for(prop: str):  # noqa: F811
     out = _old_units_for(prop)
-    for u in reset_units() + send_signal_units() + orchestrator_cancel_units() + retry_units() + sibling_condition_units():
+    for u in reset_units() + send_signal_units() + orchestrator_cancel_units() + retry_units() + sibling_condition_units() + [recovery_window_unit()]:
         u.obligations = [o for o in u.obligations if o.name.startswith(prop + "/")]
         if u.obligations:
             u.prop = prop
@@ -3290,4 +3290,98 @@ def sibling_condition_units():
         out.append(Unit(prop="*", name=f"L2/StartStage.{fn}", func=C + fn, params=[], names=STATUS_NAMES, registry=reg, replayable=False,
                         run=_sibling_cond_run(fn),
                         obligations=[Obl(f"{p}/sibling-check/{fn}", _sibling_cond_post(kind), when="any") for p in props]))
+    return out
+
+
+# ---- WorkflowRecovery.recover_pending_workflows: the window of the sweep and "every found workflow is examined" (C01 / C10)
+def _recovery_window_post(ctx):
+    """The sweep asks the store for every RUNNING / NOT_STARTED workflow started within max_recovery_age_hours (cutoff = now in ms
+    minus the window in ms, never later), and examines each workflow the store returns exactly once; a failure on one workflow is
+    recorded for that workflow and does not end the sweep."""
+    I = ctx.I
+    if ctx.exc is not None:
+        return [("only-RecoveryError-escapes", z3.BoolVal("RecoveryError" in I.exc_class_names(ctx.exc)))]
+    q = [e for e in ctx.st.effects if e.kind == "recovery_query"]
+    goals = [("one-query", z3.BoolVal(len(q) == 1))]
+    if len(q) != 1:
+        return goals
+    now_ms = ctx.extra["now_ms"]()
+    hours = I.ops.as_real(I.getattr(ctx.self_val, "max_recovery_age_hours"))
+    cutoff = I.ops.as_real(q[0].data["cutoff"])
+    # int() truncates towards zero: the cutoff is within one millisecond of now - window, and never later than that + 1
+    goals.append(("cutoff-is-now-minus-the-window", z3.And(cutoff <= now_ms - hours * 3600000 + 1, cutoff >= now_ms - hours * 3600000 - 1)))
+    goals.append(("application-filter-passed-on", I.ops.eq(q[0].data["application"], ctx.args["application"])))
+    seen = [e for e in ctx.st.effects if e.kind == "recover_one"]
+    goals.append(("every-found-workflow-examined-once", z3.BoolVal([e.data["wf"].oid for e in seen] == [w.oid for w in ctx.extra["found"]])))
+    return goals
+
+
+def recovery_window_unit():
+    from pyvc.verify import Unit
+    from .assumed_runtask import new_exception
+    from .common import STATUS_NAMES
+    from pyvc.values import PyRaise as _PR
+
+    reg = run_task_registry()
+
+    def get_wfs(I, a, k):
+        I.st.emit("recovery_query", application=a[1], cutoff=a[2])
+        found = [T.new_symbolic(I, "Workflow", "found_a"), T.new_symbolic(I, "Workflow", "found_b")]  # two arbitrary ones stand for "each"
+        I.st.ghost["found"] = found
+        return I.ops.new_conc_list(found)
+
+    def recover_one(I, a, k):
+        I.st.emit("recover_one", wf=a[1])
+        if I.st.choose("this_workflow_fails"):
+            raise _PR(new_exception(I, "recover_error"))
+        return T.new_symbolic(I, "RecoveryResult", f"result{T._counter(I, 'rr_n')}")
+
+    reg.contracts["*._get_workflows_for_recovery"] = get_wfs
+    reg.contracts["*._recover_workflow"] = recover_one
+
+    def selfv(ctx):
+        I = ctx.I
+        ci = I.index.find_class("WorkflowRecovery")
+        oid = I.st.new_id()
+        rec = ObjRec(ci.name, ci, {}, {"name": "recovery", "symbolic": True})
+        I.st.objs[oid] = rec
+        rec.fields["store"] = T.StoreModel.make_repository(I)
+        rec.fields["queue"] = T.StoreModel.make_queue(I)
+        h = z3.Real("max_recovery_age_hours")
+        I.st.assume(h >= 0)
+        from pyvc.values import SFloat
+
+        rec.fields["max_recovery_age_hours"] = SFloat(h)
+        ctx.extra["now_ms"] = lambda: _first_now_ms(ctx)
+        return SObj(oid)
+
+    def post(ctx):
+        ctx.extra["found"] = ctx.st.ghost.get("found", [])
+        return _recovery_window_post(ctx)
+
+    return Unit(prop="*", name="L2/WorkflowRecovery.recover_pending_workflows", func="stabilize.recovery:WorkflowRecovery.recover_pending_workflows",
+                params=[("application", ("opt", ("str",)))], self_type=selfv, names=STATUS_NAMES, registry=reg, replayable=False,
+                obligations=[Obl("C01/REC/window", post, when="any"), Obl("C10/recover/window", post, when="any")])
+
+
+def _first_now_ms(ctx):
+    """int(time.time() * 1000) for the first time.time() of the call: the real constant is named now!<n> by assumed_stdlib"""
+    for p in ctx.st.pc:
+        for t in _consts(p):
+            if t.decl().name().startswith("now!") and t.sort() == z3.RealSort():
+                return z3.ToReal(z3.ToInt(t * 1000))
+    return z3.RealVal(0)
+
+
+def _consts(t):
+    out, stack, seen = [], [t], set()
+    while stack:
+        u = stack.pop()
+        if u.get_id() in seen:
+            continue
+        seen.add(u.get_id())
+        if z3.is_const(u) and u.decl().kind() == z3.Z3_OP_UNINTERPRETED:
+            out.append(u)
+        elif z3.is_app(u):
+            stack.extend(u.children())
     return out
